@@ -292,3 +292,17 @@ CHECKS = {
         assumptions=["rustc's borrow checker decides accept/reject: a program that does not build has no execution to monitor", "any compile error attributed to the probe counts as 'rejected'; error codes are recorded"],
     ),
 }
+
+
+# Extensions made after the seeded-change rounds (DESIGN.md 7.5); appended to the rule texts above.
+RULE_ADDENDA = {
+    "C01": "the Clone-event log is compared too (a value supplied as a lazy clone is what Vec::push(x.clone()) holds)",
+    "C02": "consumption scripts also use nth/nth_back steps and can finish the iterator through count/last/fold/rfold/step_by(2); the Clone-event log is compared too",
+    "C03": "consumption scripts also use nth/nth_back steps and the count/last/fold/rfold/step_by(2) finishers (every skipped or bulk-consumed item must still be destroyed exactly once)",
+    "C09": "runs on every Cloneable configuration: element types with and without drop glue (both log their Clone calls)",
+    "C14": "scripts mix in nth/nth_back and finish the rest through count/last/fold/rfold/step_by(2) after 0..3 steps from either end",
+    "C15": "a Splice owning a !Send / !Sync replacement iterator must never be Send / Sync; AnyValueCloneable of the owning handles (Element, Pop, Remove, SwapRemove) <=> Cloneable",
+    "C16": "class shared-path: each of the 20 mutating methods of AnyVec through &AnyVec and each of the 20 of AnyVecTyped through the shared typed view, while an ElementRef is alive",
+}
+for _p, _t in RULE_ADDENDA.items():
+    CHECKS[_p]["rule"] += "; " + _t
